@@ -261,6 +261,56 @@ def shard_add_api(seed, idx, n):
     return res
 
 
+NONLIST_RULE_LISTS = ["ALLOW *", None, {"ALLOW": "*"}, ("ALLOW", "*"), (["ALLOW", "*"],), 0, True, {("ALLOW", "*")}]
+
+
+def shard_nonlist_rule_lists():
+    """The rule LIST of a step or inspection that is not a list at all (a string, null, an object, a tuple, a number): no
+    such object is constructed, validates after the assignment, or comes out of a layout file. Oracle on the
+    implementation; every shape x item kind x material/product x way of getting it in."""
+    from in_toto.models.layout import Step, Inspection, Layout
+    from in_toto.models.metadata import Metablock
+    from securesystemslib.exceptions import FormatError
+    res = core.Result()
+    for shape in NONLIST_RULE_LISTS:
+        for cls in (Step, Inspection):
+            for which in ("expected_materials", "expected_products"):
+                ways = {}
+                def attempt(label, fn):
+                    try:
+                        fn()
+                        ways[label] = "accepted"
+                    except FormatError:
+                        ways[label] = "FormatError"
+                    except Exception as e:  # pylint: disable=broad-except
+                        ways[label] = type(e).__name__
+                attempt("constructor", lambda: cls(name="it", **{which: shape}))
+                def assign():
+                    o = cls(name="it"); setattr(o, which, shape); o.validate()
+                attempt("assigned_then_validate", assign)
+                def in_layout():
+                    o = cls(name="it"); setattr(o, which, shape)
+                    lay = Layout(steps=[o]) if cls is Step else Layout(inspect=[o])
+                    Metablock(signed=lay)
+                attempt("inside_a_layout", in_layout)
+                jsonable = not isinstance(shape, (tuple, set))
+                if jsonable:
+                    def from_file():
+                        item = {"_type": "step" if cls is Step else "inspection", "name": "it", "expected_materials": [], "expected_products": [],
+                                **({"pubkeys": [], "expected_command": [], "threshold": 1} if cls is Step else {"run": ["true"]})}
+                        item[which] = shape
+                        Layout.read({"_type": "layout", "steps": [item] if cls is Step else [], "inspect": [] if cls is Step else [item],
+                                     "keys": {}, "expires": "2031-01-01T00:00:00Z", "readme": ""})
+                    attempt("from_a_layout_file", from_file)
+                ok = "accepted" not in ways.values()
+                case = {"op": "nonlist_rule_list", "value": repr(shape), "item": cls.__name__, "list": which}
+                res.case(dict(case, outcomes=ways), True, ok, sample_cap=1)
+                res.count("nonlist_rule_list")
+                if not ok:
+                    res.fail("oracle", case, {"why": "a step / inspection whose rule list is not a list was accepted", "outcomes": ways})
+    return res
+
+
 def shard_exhaustive(alpha, length, first_tokens):
     res = core.Result()
     rng = core.rng_for(0, "c17", "ex", length, str(first_tokens))
@@ -331,7 +381,7 @@ def shard_structured(seed, idx, n_double, n_random):
 
 
 def run(tier, seed):
-    shards = [(shard_add_api, (seed, i, 150 if tier == "quick" else 2500)) for i in range(4)]
+    shards = [(shard_add_api, (seed, i, 150 if tier == "quick" else 2500)) for i in range(4)] + [(shard_nonlist_rule_lists, ())]
     if tier == "quick":
         for L in range(0, 4):
             for t in (ALPHA if L else [ALPHA[0]]):
@@ -363,6 +413,11 @@ def _dispatch(func, args):
 
 def replay(case):
     d = core.driver()
+    if case.get("op") in ("nonlist_rule_list", "in_place_rule_edit", "add_rule_from_string"):
+        if case.get("op") == "nonlist_rule_list":
+            res = shard_nonlist_rule_lists()
+            return {"case": case, "failures": [f for f in res.failures if f["case"] == case][:1]}
+        return {"case": case, "note": "an oracle on the implementation's classes; the case holds the rule and the way it got in"}
     if case.get("op") == "pack_rule":
         return {"impl": impl_pack(case["data"]), "model": d.call({"op": "pack_rule", "data": case["data"]})}
     out = {"impl": impl_unpack(to_py(case["rule"]) if isinstance(case["rule"], list) else case["rule"]),
